@@ -398,7 +398,15 @@ func (d *dataRun) replyPipe(c DataCase, ids, pl []byte, out map[string]interface
 		arg, wantCode = []byte(`{"tag":12345,"pad":[1]}`), erpc.CodeBadMessage
 		settings = append(settings, erpc.WithBodyCodec('j'))
 	}
-	cmd := cs.Call(route, arg, res, settings...)
+	var cmd erpc.CallCmd
+	cd := make(chan erpc.CallCmd, 1)
+	go func() { cd <- cs.Call(route, arg, res, settings...) }()
+	select {
+	case cmd = <-cd:
+	case <-time.After(5 * time.Second):
+		out["err"] = "the call did not complete within 5 s"
+		return
+	}
 	if wantCode == 0 {
 		if !cmd.StatusOK() {
 			out["err"] = cmd.Status().String()
